@@ -142,8 +142,9 @@ Theorem merge_redox_element_total :
 Proof. exact merge_element_total. Qed.
 Print Assumptions merge_redox_element_total.
 
-(* merging a total named by VALENCE STATE stores it and removes the key substr(0, pos-1) -- the element
-   name without its last character (Fe(2) removes F: finding restore:SOLUTION_RAW:-totals:F) -- nothing else *)
+(* merging a total named by VALENCE STATE stores it and removes the total named by the element (the text in
+   front of "("), nothing else.  (Before the repair of finding restore:SOLUTION_RAW:-totals:F the key removed
+   was one character short -- Fe(2) removed F; kept as MergeRedox.old_redox_branch_refuted.) *)
 Theorem merge_redox_valence_state :
   forall (V : Type) (m : ndmap V) k v pos,
     index_paren k = Some pos ->
